@@ -6,16 +6,22 @@ ID = "C08"
 LEVEL = "other"
 MODES = ["gregorian"]
 FUNCS = ["data:TimePoint.__init__", "ghost:dump_fields_recompose", "ghost:timepoint_text_round_trip",
+         "ghost:dump_custom_format",
          ("data:TimePoint.to_time_zone", r"^(cal|ord|week)-hms$"), ("data:TimePoint.to_utc", r"^(cal|ord|week)-hms$"),
          ("parsers:TimePointParser.parse", r"^e:(cal|ord|week)[-+]?/hms:e/(Z|[-+]hhmm)$")]
-QUICK_FILTER = {"ghost:timepoint_text_round_trip": lambda c: c != "week-x2"}
+QUICK_FILTER = {"ghost:timepoint_text_round_trip": lambda c: c != "week-x2",
+                # quick: each representation change once (thorough: all 27)
+                "ghost:dump_custom_format": lambda c: c in (
+                    "cal|CCYYDDDThhmmss+hhmm", "ord|CCYYMMDDThhmmss+hhmm",
+                    "week|CCYY-DDDThh:mm:ss+hh:mm", "ord|CCYYWwwDThhmmss+hhmm",
+                    "cal|CCYY-MM-DDThh:mm:ssZ", "week|CCYY-Www-DThh:mm:ss+hh")}
 LEMMAS = ["wiy.range", "opaque.dby.step", "opaque.dby.range"]
 CANARIES = ["canary.week52"]
-EXPLANATION = ("PROVED for whole-second points (hh:mm:ss form, incl. 24:00:00) in all three date representations, plain and signed expanded years, every UTC offset: the REAL str(p) (TimePoint.__str__ -> shared dumper map -> TimePoint._get_dump_format -> TimePointDumper.dump -> _get_expression_and_properties -> _dump_expression_with_properties, incl. the re-zoning to the literal zone) and the REAL parser EXECUTED and composed on a symbolic point - the formatted text is a piecewise Text with digit fields (%0Nd of a value proved to fit), the format-string substitutions are the real rec.sub calls (digit-blind patterns, pyvc/textlex.text_sub), parsing as in C07 - parse(str(p)) has exactly p's field values, representation and offset, equals p, and dumps to the same text (ghost program timepoint_text_round_trip); constructor contracts; memoisation soundness of dumper/parser caches (a cache keyed without an input it depends on is refuted). BOUNDED: str/parse round trip on a grid of TimePoints (3 representations, 5 precision forms incl. 24:00 and decimals, 12 offsets, year boundaries, expanded years) and 5 custom complete formats.")
-ASSUMPTIONS = ["decimal hour/minute/second forms (\"%0.6f\" float formatting) and custom formats: bounded grid only",
+EXPLANATION = ("PROVED for whole-second points (hh:mm:ss form, incl. 24:00:00) in all three date representations, plain and signed expanded years, every UTC offset: the REAL str(p) (TimePoint.__str__ -> shared dumper map -> TimePoint._get_dump_format -> TimePointDumper.dump -> _get_expression_and_properties -> _dump_expression_with_properties, incl. the re-zoning to the literal zone) and the REAL parser EXECUTED and composed on a symbolic point - the formatted text is a piecewise Text with digit fields (%0Nd of a value proved to fit), the format-string substitutions are the real rec.sub calls (digit-blind patterns, pyvc/textlex.text_sub), parsing as in C07 - parse(str(p)) has exactly p's field values, representation and offset, equals p, and dumps to the same text (ghost program timepoint_text_round_trip); CUSTOM FORMATS: nine complete formats (calendar / ordinal / week date, basic and extended, own zone +hh:mm / +hhmm / +hh or literal Z) dumped from a point in any of the three representations parse back to an equal instant with valid fields - 27 cases, the format's representation change included (ghost program dump_custom_format; quick tier 6 of 27); constructor contracts; memoisation soundness of dumper/parser caches (a cache keyed without an input it depends on is refuted). BOUNDED: str/parse round trip on a grid of TimePoints (3 representations, 5 precision forms incl. 24:00 and decimals, 12 offsets, year boundaries, expanded years) and 5 custom complete formats.")
+ASSUMPTIONS = ["decimal hour/minute/second forms (\"%0.6f\" float formatting) and custom formats other than the nine proved ones: bounded grid only",
                "%0Nd of an int in 0..10^N-1 prints its N-digit spelling (CPython axiom); blindness lemma and split lemma of pyvc/textlex.py (prose, hypotheses machine-checked)",
                "the shared dumper map TIMEPOINT_DUMPER_MAP holds the dumpers the real module built at import (read from the imported module); it is a cache (C15 obligations)"]
-LEVEL_TEXT = "Whole-second default-format round trip: proof (real dump and parse executed symbolically); decimal forms and custom formats: bounded grid. Hence other."
+LEVEL_TEXT = "Whole-second default-format round trip: proof (real dump and parse executed symbolically); nine custom complete formats: proof; decimal forms and other custom formats: bounded grid. Hence other."
 LEVEL_NOTE = "see DESIGN.md A.4 (as built) and section 5/C08 (plan)"
 
 
